@@ -12,7 +12,9 @@ SPEC = {
     'deductive': [
         ('K-next(prev and edge slots)', 'next', '^fields:(prev|edges)'),
         ('K-update(edge_m and prev move together)', 'update', '^update:slot-complete\\[(edge_m|prev)\\]'),
-        ("_match_states(call-site precondition of next: only moves the map offers, map coordinates)", 'match_states', r'^(walk:|insert:)')],
+        ("_match_states(call-site precondition of next: only moves the map offers, map coordinates)", 'match_states', r'^(walk:|insert:)'),
+        ("non-emitting search(call-site precondition of next: only moves the map offers)", 'ne_end', r'^walk:'),
+        ("non-emitting search, same observation(call-site precondition of next)", 'ne_inner', r'^walk:')],
     'bounded': [
         ('walk-in-the-graph', suites.case_C04, 1500, 25000, RULE + '; ' + 'non-trivial = best path visits at least two different states; histories of <= 4 operations', '')],
 }
